@@ -380,10 +380,13 @@ class NestedTransition(Transition):
             while True:
                 event_data.scope = prefix
                 for state in initial_states:
+                    # the plain name: `state.name` carries the state's scope while its own enter / exit callbacks
+                    # run, so an event triggered from such a callback would file the state under a joined key
+                    name = super(NestedState, state).name
                     enter_partials.append(partial(state.scoped_enter, event_data, prefix))
-                    scoped_tree[state.name] = OrderedDict()
+                    scoped_tree[name] = OrderedDict()
                     if state.initial:
-                        queue.append((scoped_tree[state.name], prefix + [state.name],
+                        queue.append((scoped_tree[name], prefix + [name],
                                      [state.states[i.name] if hasattr(i, 'name') else state.states[i]
                                      for i in listify(state.initial)]))
                 if not queue:
